@@ -107,9 +107,23 @@ def _(eng, m, g, a):
     o = En("Ordering", 0 if x < y else (1 if x == y else 2), "Less" if x < y else ("Equal" if x == y else "Greater"), [])
     return o if m.group(2) == "cmp" else some(o)
 
+SYN_TOKENS = {"PathSep": "::", "Comma": ",", "Colon": ":", "Semi": ";", "Lt": "<", "Gt": ">", "Plus": "+", "Minus": "-", "Eq": "=", "And": "&", "Star": "*", "Not": "!", "Dot": ".",
+              "Pound": "#", "Question": "?", "RArrow": "->", "FatArrow": "=>", "Underscore": "_", "Or": "|", "At": "@", "Dollar": "$",
+              "Pub": "pub", "Struct": "struct", "Enum": "enum", "Mod": "mod", "Use": "use", "Super": "super", "Crate": "crate", "SelfValue": "self", "SelfType": "Self",
+              "Fn": "fn", "Impl": "impl", "For": "for", "Where": "where", "Const": "const", "Static": "static", "Mut": "mut", "Ref": "ref", "Type": "type", "Trait": "trait", "As": "as", "Dyn": "dyn", "Unsafe": "unsafe", "Let": "let", "In": "in"}
+class SynTokV:
+    """a value of one of syn's token types (`Token![pub]`, `Token![::]`, ...): it prints as its fixed text"""
+    def __init__(self, kind): self.kind = kind; self.text = SYN_TOKENS[kind]
+    def clone(self): return self
+    def eq(self, o): return True
+    def __repr__(self): return "Token![%s]" % self.text
 def to_tokens(eng, v, ts):
     x = deref(v)
-    if isinstance(x, IdentV): ts.t.append(("i", x.name))
+    if isinstance(x, SynTokV):
+        if x.text[0].isalpha() or x.text == "_": ts.t.append(("i", x.text))
+        else:
+            for j, ch in enumerate(x.text): ts.t.append(("p", ch, j < len(x.text) - 1))
+    elif isinstance(x, IdentV): ts.t.append(("i", x.name))
     elif isinstance(x, TS): ts.t += x.t
     elif isinstance(x, SynV): ts.t += x.toks
     elif isinstance(x, PunctV):
@@ -205,3 +219,8 @@ def _(eng, m, g, a):
         if i: out.append("::")
         out += s.p
     return StrV(out)
+
+@model(r"^<(?:syn::token::|token::)?(" + "|".join(SYN_TOKENS) + r") as (?:std::default::)?Default>::default$")
+def _(eng, m, g, a): return SynTokV(m.group(1))
+@model(r"^<(?:syn::token::|token::)?(" + "|".join(SYN_TOKENS) + r") as (?:quote::)?ToTokens>::to_tokens$")
+def _(eng, m, g, a): to_tokens(eng, a[0], deref(a[1])); return UNIT
